@@ -253,7 +253,26 @@ func c08Run(r *hx.Run, bin string, c c08Case, rnd *rand.Rand) {
 			}
 		}
 	}
-	e.log("populated %d keys; SIGKILL", len(keysA))
+	// many distinct cold keys stored at the same instant: their records are written to the store concurrently
+	var keysC []string
+	for i := 0; i < 48; i++ {
+		keysC = append(keysC, fmt.Sprintf("/c08/c/%d/c%d", c.ID, i))
+	}
+	{
+		var cwg sync.WaitGroup
+		for _, k := range keysC {
+			cwg.Add(1)
+			go func(k string) {
+				defer cwg.Done()
+				if res := e.get(k); res.Err == nil {
+					e.judge(res, "concurrent_populate")
+				}
+			}(k)
+		}
+		cwg.Wait()
+		r.Add("keys_stored_concurrently", int64(len(keysC)))
+	}
+	e.log("populated %d keys sequentially and %d concurrently; SIGKILL", len(keysA), len(keysC))
 	e.pike.Kill()
 	r.Add("kills_external_at_quiescence", 1)
 	// ---- incarnation 2: armed
@@ -347,7 +366,7 @@ func c08Run(r *hx.Run, bin string, c c08Case, rnd *rand.Rand) {
 	if !e.start("probe") {
 		return
 	}
-	all := append(append([]string{}, keysA...), keysB...)
+	all := append(append(append([]string{}, keysA...), keysB...), keysC...)
 	probe := func(phase string) bool {
 		for _, k := range all {
 			if !e.judge(e.get(k), phase) {
@@ -436,7 +455,7 @@ func c08Run(r *hx.Run, bin string, c c08Case, rnd *rand.Rand) {
 
 func c08(r *hx.Run) {
 	r.Level = "fault_enumeration"
-	r.Rule = "real pike binary (race build) with a badger store and a clock file. Per case three incarnations on the same store: (1) populate cacheable (T=100) and uncacheable (period 20 s) keys, SIGKILL at quiescence; (2) concurrent writes of 40 new keys, hits and purges (admin API) with the crash armed: self-kill the n-th time a named hook point is reached (cacheable.enter/released/saved, hfp.enter/released/saved, get.loaded, purge.removed; n first/middle/late), external SIGKILL at a random moment, or SIGTERM; (3) restart and probe every key in the same second, at mid-life, at the exact expiry second and one second later; (4) SIGKILL, move the clock past every expiry, restart, probe again (first lookup after the restart). Every answer is judged against the origin's log: byte-identical version of that key, hit only inside the version's original lifetime with Age continuing from the original fetch and no upstream contact, never a version whose purge completed, hit-for-pass only inside a marker's period; pike must come up after every stop. Non-trivial/distinct = (kind, point, n) whose crash point was reached."
+	r.Rule = "real pike binary (race build) with a badger store and a clock file. Per case three incarnations on the same store: (1) populate cacheable (T=100) and uncacheable (period 20 s) keys, 8 sequentially and 48 in one concurrent burst, SIGKILL at quiescence; (2) concurrent writes of 40 new keys, hits and purges (admin API) with the crash armed: self-kill the n-th time a named hook point is reached (cacheable.enter/released/saved, hfp.enter/released/saved, get.loaded, purge.removed; n first/middle/late), external SIGKILL at a random moment, or SIGTERM; (3) restart and probe every key in the same second, at mid-life, at the exact expiry second and one second later; (4) SIGKILL, move the clock past every expiry, restart, probe again (first lookup after the restart). Every answer is judged against the origin's log: byte-identical version of that key, hit only inside the version's original lifetime with Age continuing from the original fetch and no upstream contact, never a version whose purge completed, hit-for-pass only inside a marker's period; pike must come up after every stop. Non-trivial/distinct = (kind, point, n) whose crash point was reached."
 	r.Assume = []string{"refetching is always allowed (survival of an entry is not demanded)", "clock = real clock + offset file (whole seconds); verdicts use [call,return] clock intervals", "power-loss durability is out of scope (SIGKILL keeps the page cache)"}
 	bin, err := hx.BuildPike(r.Scratch)
 	if err != nil {
